@@ -120,6 +120,7 @@ func runRetry(t *testing.T, rep *Report, rng *rand.Rand, n int) error {
 		cooldown time.Duration
 		cin      int  // the invocation with this index cancels the context itself before it returns (-1: none)
 		zero     bool // zero backoff: the wait's timer is ready at once, together with Done after a cancellation
+		durs     []time.Duration // how long each invocation takes (nil: no time at all)
 	}
 	var cases []rc
 	for i := 0; i < n; i++ {
@@ -146,6 +147,13 @@ func runRetry(t *testing.T, rep *Report, rng *rand.Rand, n int) error {
 			c.cin = rng.Intn(ln)
 		}
 		c.zero = rng.Intn(3) == 0
+		if c.tc < 0 && c.breaker == 0 && c.cin < 0 && rng.Intn(3) == 0 {
+			// invocations that take their time - some longer than the largest backoff: how long the operation ran is no
+			// business of the attempt count or of the wait that follows
+			for k := 0; k < len(c.outcomes)+1; k++ {
+				c.durs = append(c.durs, []time.Duration{0, 30 * time.Millisecond, 100 * time.Millisecond, 150 * time.Millisecond}[rng.Intn(4)])
+			}
+		}
 		cases = append(cases, c)
 	}
 	cfgStd := leader.BackoffConfig{InitialBackoff: 10 * time.Millisecond, MaxBackoff: 80 * time.Millisecond, BackoffMultiplier: 2, Jitter: 0.2}
@@ -180,6 +188,9 @@ func runRetry(t *testing.T, rep *Report, rng *rand.Rand, n int) error {
 				}
 				if idx == c.cin {
 					cancel()
+				}
+				if idx < len(c.durs) && c.durs[idx] > 0 {
+					time.Sleep(c.durs[idx])
 				}
 				idx++
 				switch o {
@@ -222,6 +233,9 @@ func runRetry(t *testing.T, rep *Report, rng *rand.Rand, n int) error {
 			d := int64(0)
 			if k+1 < len(calls) {
 				d = calls[k+1] - calls[k]
+				if k < len(c.durs) {
+					d -= int64(c.durs[k]) // (the wait begins when the invocation has returned)
+				}
 				waits = append(waits, d)
 			} else if o == "trans" {
 				// last invocation was transient: the loop ended by max attempts, cancellation in the wait, or breaker refusal
@@ -259,8 +273,12 @@ func runRetry(t *testing.T, rep *Report, rng *rand.Rand, n int) error {
 			req = fmt.Sprintf("retry %d - 0 %s", c.max, strings.Join(script, " "))
 		}
 		var cs []string
-		for _, x := range calls {
-			cs = append(cs, fmt.Sprint(x))
+		var spent int64 // (time spent inside earlier invocations: the model's clock runs over the waits only)
+		for k, x := range calls {
+			cs = append(cs, fmt.Sprint(x-spent))
+			if k < len(c.durs) {
+				spent += int64(c.durs[k])
+			}
 		}
 		reqs = append(reqs, req)
 		impls = append(impls, strings.TrimSpace(result+" "+strings.Join(cs, " ")))
